@@ -42,7 +42,7 @@ def pv(x) -> str:
             return "err:div0"
         return f"f:{show_rat(float(x))}"
     if isinstance(x, str):
-        return f"s:{x}"
+        return "s:" + x.replace("\n", "\\n")
     if type(x).__module__ == "bblean._merges" or hasattr(x, "__call__") and hasattr(x, "name") and not isinstance(x, type):
         # a merge-function object: class name and its instance attributes in sorted order (at most three)
         attrs = [a for a in ("decay", "offset", "tolerance") if a in getattr(x, "__dict__", {})]
@@ -84,6 +84,16 @@ def show_real(r) -> str:
     if isinstance(r, tuple):
         return " ".join(pv(v) for v in r)
     return pv(r)
+
+
+def iters_prev_max(iters, raws, i, unit) -> float:
+    """the running maximum before iteration i (what the loop variable holds)"""
+    m = 0.0
+    for j in range(i):
+        v = raws[j] * unit
+        if v > m:
+            m = v
+    return m
 
 
 def rand_ls(rng: random.Random, F: int, n: int, dtype, consistent: bool = True) -> np.ndarray:
@@ -375,6 +385,166 @@ def suite_gen(which: set[str]):
                         compare("_validate_output_dir", [ow, nonempty, exists, isdir], real)
                         if real != "ERR:RuntimeError" and nonempty and (not pth.is_dir() or any(pth.iterdir())) and res.disagreement is None:
                             res.disagreement = {"what": "overwrite did not leave an empty directory", "model": "-", "impl": str(sorted(x.name for x in pth.iterdir()) if pth.is_dir() else "gone")}
+                finally:
+                    _shutil.rmtree(base, ignore_errors=True)
+            if "monitor" in which:
+                # the daemon's loop, run for real (real files) with a scripted process tree, clock and sleep; every iteration's
+                # file effects, recorded at the module's own `open` / `os` / `time` names, against the generated loop body
+                import builtins as _bi
+                import shutil as _shutil
+                import tempfile as _tmp
+                import time as _time
+                from pathlib import Path as _P
+                base = _P(_tmp.mkdtemp(prefix="bbverif-mon-", dir=os.environ.get("VERIF_SCRATCH", "/var/tmp")))
+
+                class _Stop(Exception):
+                    pass
+                try:
+                    for run_i in range(max(12, N // 12)):
+                        ddir = base / f"m{run_i}"
+                        ddir.mkdir()
+                        csv = ddir / "monitor-rss.csv"
+                        n_it = rng.randint(1, 12)
+                        unit = rng.choice([1, 4096, 2 ** 20, 2 ** 30, 123457])
+                        hi = rng.choice([3, 10, 2 ** 10, 2 ** 24])
+                        raws = [rng.choice([0, rng.randint(0, hi), rng.randint(0, hi) * unit]) for _ in range(n_it)]
+                        if rng.random() < 0.3:
+                            raws = sorted(raws)
+                        clk0 = rng.uniform(0, 1e5)
+                        clks = [clk0 + rng.uniform(0, 50) for _ in range(n_it)]
+                        trace: list = []
+                        iters: list = []
+                        state = {"i": 0}
+
+                        def tok(p_):
+                            return "file" if _P(p_) == csv else str(p_)
+
+                        class FProxy:
+                            def __init__(self, f, p_):
+                                self.f, self.p = f, p_
+
+                            def __enter__(self):
+                                self.f.__enter__()
+                                return self
+
+                            def __exit__(self, *a):
+                                trace.append(("close", tok(self.p)))
+                                return self.f.__exit__(*a)
+
+                            def write(self, text):
+                                parts = []
+                                body = text[:-1] if text.endswith("\n") else text
+                                for j, piece in enumerate(body.split(",")):
+                                    if j:
+                                        parts.append(",")
+                                    try:
+                                        parts.append(float(piece))
+                                    except ValueError:
+                                        parts.append(piece)
+                                if text.endswith("\n"):
+                                    parts.append("\n")
+                                trace.append(("write", tok(self.p), len(parts), *parts))
+                                return self.f.write(text)
+
+                            def flush(self):
+                                trace.append(("flush", tok(self.p)))
+                                return self.f.flush()
+
+                            def fileno(self):
+                                return ("fileno", self)
+
+                        def open_(p_, mode="r", **k):
+                            trace.append(("open", tok(p_), mode))
+                            return FProxy(_bi.open(p_, mode=mode, **k), p_)
+
+                        class OsProxy:
+                            def __getattr__(self, k):
+                                return getattr(os, k)
+
+                            @staticmethod
+                            def fsync(h):
+                                trace.append(("fsync", tok(h[1].p)))
+                                return os.fsync(h[1].f.fileno())
+
+                            @staticmethod
+                            def replace(a_, b_):
+                                trace.append(("os.replace", tok(a_), tok(b_)))
+                                return os.replace(a_, b_)
+
+                        class TimeProxy:
+                            def __getattr__(self, k):
+                                return getattr(_time, k)
+
+                            @staticmethod
+                            def perf_counter():
+                                return clks[state["i"]]
+
+                            @staticmethod
+                            def sleep(x):
+                                peak = (ddir / "max-rss.txt")
+                                iters.append((list(trace), peak.read_text() if peak.exists() else None,
+                                              sorted(q.name for q in ddir.iterdir())))
+                                trace.clear()
+                                state["i"] += 1
+                                if state["i"] >= n_it:
+                                    raise _Stop()
+
+                        class Proc:
+                            pid = 1
+
+                            def memory_info(self):
+                                class R:
+                                    rss = raws[state["i"]]
+                                return R()
+
+                            def children(self, recursive=True):
+                                return []
+
+                        class PsProxy:
+                            NoSuchProcess = Exception
+
+                            @staticmethod
+                            def Process(pid):
+                                return Proc()
+                        saved = {k: MEM.__dict__.get(k, None) for k in ("os", "time", "psutil", "open")}
+                        MEM.os, MEM.time, MEM.psutil, MEM.open = OsProxy(), TimeProxy(), PsProxy(), open_
+                        start = clk0 - rng.uniform(0, 10)
+                        try:
+                            try:
+                                MEM.monitor_rss_process(csv, 0.01, start, 1)
+                            except _Stop:
+                                pass
+                        finally:
+                            for k, v in saved.items():
+                                if v is None:
+                                    del MEM.__dict__[k]
+                                else:
+                                    setattr(MEM, k, v)
+                        mx = d.cmd("GEN monitor_rss_process_loop_init")
+                        ok_init = mx == pv(0.0)
+                        if not ok_init and res.disagreement is None:
+                            res.disagreement = {"what": "generated initial maximum differs", "model": mx, "impl": pv(0.0)}
+                        cur = 0.0
+                        seen_peak = None
+                        for i, (tr, peak_text, listing) in enumerate(iters):
+                            if i == 0:
+                                # the header written before the loop is not part of the loop body
+                                k0 = next(j for j, t_ in enumerate(tr) if t_[0] == "close")
+                                tr = tr[k0 + 1:]
+                            new = raws[i] * MEM._BYTES_TO_GIB
+                            if new > cur:
+                                cur = new
+                                seen_peak = cur
+                            real = tuple(x for t_ in tr for x in t_) + (cur,)
+                            args = [iters_prev_max(iters, raws, i, MEM._BYTES_TO_GIB), start, 0.01, MEM._BYTES_TO_GIB, str(ddir), clks[i], raws[i]]
+                            compare("monitor_rss_process_loop", args, real)
+                            # the files themselves: the peak file holds the running maximum in full, no temporary name is left
+                            want = None if seen_peak is None else repr(seen_peak) + "\n"
+                            if (peak_text != want or "max-rss.txt.tmp" in listing) and res.disagreement is None:
+                                res.disagreement = {"what": "peak file after an iteration is not the complete running maximum",
+                                                    "model": str(want), "impl": f"{peak_text!r} listing={listing}"}
+                        cnt["monitor_runs"] = cnt.get("monitor_runs", 0) + 1
+                        cnt["monitor_updates"] = cnt.get("monitor_updates", 0) + sum(1 for tr, _, _ in iters if any(t_[0] == "os.replace" for t_ in tr))
                 finally:
                     _shutil.rmtree(base, ignore_errors=True)
             if "config" in which:
